@@ -5,7 +5,10 @@ Correspondence: the real `AsyncPettingZooVecEnv` (real worker processes, the sta
 chooses) over the scripted counting environments of `harness/envs.py` — per-environment episode
 lengths, so automatic resets interleave; termination-only / truncation-only / mixed endings; agents
 leaving early; vector / image / dict / tuple observations with many dtypes; discrete and continuous
-actions; copy and no-copy modes; seeds — is driven by op sequences (reset(seed) | step(actions)).
+actions; copy and no-copy modes; seeds; action dicts whose keys are inserted in another order than
+possible_agents (reversed, or re-shuffled at every step, with pairwise different per-agent actions) — is
+driven by op sequences (reset(seed) | step(actions[, key order])).  Actions, the reference, the model
+input and the environments' action logs are all keyed by agent id.
 
 * reference (oracle 1): the same environment class stepped sequentially in this process with the same
   actions, the placeholder rule of `get_placeholder_value` and the same auto-reset rule; every field at
@@ -88,10 +91,13 @@ def gen_case(rng, tier: str) -> dict:
         env_cfgs.append({"lens": lens, "kinds": kinds, "leave": leave, "rev_dicts": rng.random() < 0.2})
     ops = []
     n_seq = rng.randint(1, 2) if tier == "quick" else rng.randint(2, 4)
+    # the action dict is keyed by agent id: in a good share of the cases its keys are inserted in another
+    # order than possible_agents (fixed reversed order, or re-shuffled at every step)
+    key_order = rng.choice(["agents", "reversed", "shuffled", "shuffled"]) if n_agents > 1 else "agents"
     for _ in range(n_seq):
         ops.append(["reset", rng.choice([None, rng.randrange(0, 1000), rng.randrange(0, 50)])])
         for _ in range(rng.randint(4, 12) if tier == "quick" else rng.randint(6, 30)):
-            ops.append(["step", gen_actions(rng, act, n_envs)])
+            ops.append(gen_step(rng, act, n_envs, key_order))
     return {"n_envs": n_envs, "agents": agents, "obs": obs, "act": act, "envs": env_cfgs,
             "copy": rng.random() < 0.6, "container": rng.choice(["array", "array", "list"]),
             "context": None, "ops": ops, "case_seed": rng.randrange(1 << 30)}
@@ -110,16 +116,34 @@ def gen_actions(rng, act, n_envs):
     return out
 
 
+def gen_step(rng, act, n_envs, key_order="agents"):
+    """["step", acts] or ["step", acts, order]; when the keys are not in agent order the agents' actions
+    are made pairwise different in environment 0, so a mix-up of agents cannot go unnoticed"""
+    n = len(act)
+    if key_order == "agents" or n < 2:
+        return ["step", gen_actions(rng, act, n_envs)]
+    order = list(reversed(range(n))) if key_order == "reversed" else rng.sample(range(n), n)
+    for _ in range(20):
+        acts = gen_actions(rng, act, n_envs)
+        codes = [code_of(k, col[0]) for k, col in zip(act, acts)]
+        if len(set(codes)) == n:
+            break
+    return ["step", acts, order]
+
+
 def env_cfgs(case) -> list[dict]:
     return [{"env_id": i, "agents": case["agents"], "lens": e["lens"], "kinds": e["kinds"], "leave": e["leave"],
              "obs": case["obs"], "act": case["act"], "rev_dicts": e.get("rev_dicts", False)}
             for i, e in enumerate(case["envs"])]
 
 
-def action_dict(case, acts):
-    """what the caller hands to vec_env.step"""
+def action_dict(case, acts, order=None):
+    """what the caller hands to vec_env.step: a dict keyed by agent id.  `order` (a permutation of the
+    agent indices) is the order in which the keys are inserted — it must not matter to the vec env."""
     d = {}
-    for ag, k, col in zip(case["agents"], case["act"], acts):
+    idx = list(order) if order else list(range(len(case["agents"])))
+    for a in idx:
+        ag, k, col = case["agents"][a], case["act"][a], acts[a]
         if case["container"] == "array":
             d[ag] = (np.array(col, dtype=np.int64) if k == 0 else np.array(col, dtype=np.float32) if k < 0
                      else np.array(col, dtype=np.float32).reshape(len(col), k))
@@ -289,7 +313,7 @@ def run_impl(case, ops):
                 ret_obs, vinfo = vec.reset_wait(timeout=WAIT_S)
                 rec = {"op": "reset", "obs": snapshot_obs(case, ret_obs), "info": info_at(vinfo, ags, n)}
             else:
-                ret_obs, rew, term, trunc, vinfo = vec.step(action_dict(case, op[1]))
+                ret_obs, rew, term, trunc, vinfo = vec.step(action_dict(case, op[1], op[2] if len(op) > 2 else None))
                 rec = {"op": "step", "obs": snapshot_obs(case, ret_obs),
                        "rew": [np.array(rew[ag]) for ag in ags], "term": [np.array(term[ag]) for ag in ags],
                        "trunc": [np.array(trunc[ag]) for ag in ags], "info": info_at(vinfo, ags, n)}
@@ -720,6 +744,9 @@ def case_tags(case) -> list[str]:
     if any(op[0] == "reset" and op[1] is not None for op in case["ops"]):
         t.append("seeded")
     t.append(f"start-method-{case.get('context') or 'default'}")
+    n = len(case["agents"])
+    if any(op[0] == "step" and len(op) > 2 and list(op[2]) != list(range(n)) for op in case["ops"]):
+        t.append("action-dict-keys-in-another-order")
     return t
 
 
@@ -729,7 +756,8 @@ def run(chk: Check) -> None:
     chk.rule = ("vec suite: AsyncPettingZooVecEnv with real worker processes over scripted environments "
                 "(1-5 envs, 1-3 agents, vector/image/dict/tuple observations over ten dtypes, discrete and "
                 "continuous actions, per-env episode lengths 1-5 cycling per episode, term/trunc/mixed/both "
-                "endings, agents leaving early, copy and no-copy, seeds) driven by reset/step op sequences; "
+                "endings, agents leaving early, copy and no-copy, seeds, action-dict key order = / reversed / "
+                "shuffled per step) driven by reset/step op sequences; "
                 "wrapper suite: PettingZooAutoResetParallelWrapper over the same environments in-process; "
                 "distinct = distinct (configuration, op list); non-trivial = at least one automatic reset happened")
     chk.assumptions = [
@@ -814,7 +842,8 @@ SELFTEST_CASE = {
              {"lens": [4, 1], "kinds": ["mixed"], "leave": [0, 0], "rev_dicts": False}],
     "copy": True, "container": "array", "context": None, "case_seed": 7,
     "ops": [["reset", 11]] + [["step", [[(s + i) % 5 for i in range(3)],
-                                        [[(s - 4 + i) / 8.0, (i + 1) / 8.0] for i in range(3)]]] for s in range(7)],
+                                        [[(s - 4 + i) / 8.0, (i + 1) / 8.0] for i in range(3)]],
+                               [1, 0] if s % 2 else [0, 1]] for s in range(7)],
 }
 SELFTEST_WRAPPER = {
     "n_envs": 1, "agents": ["agent_0", "agent_1"],
@@ -893,6 +922,20 @@ def selftest(chk: Check) -> None:
     pv.PettingZooVecEnv.step = swapped_step
     try:
         expect("actions of environment i delivered to environment N-1-i")
+    finally:
+        pv.PettingZooVecEnv.step = orig_step
+    # 1b. action dict transposed by insertion order instead of by agent id
+    def by_position_step(self, actions):
+        cols = list(actions.values())
+        passed = [[] for _ in cols[0]]
+        for col in cols:
+            for env_idx, action in enumerate(col):
+                passed[env_idx].append(int(action) if isinstance(action, (int, np.integer)) else action)
+        self.step_async(passed)
+        return self.step_wait()
+    pv.PettingZooVecEnv.step = by_position_step
+    try:
+        expect("action dict transposed by key insertion order, not by agent id")
     finally:
         pv.PettingZooVecEnv.step = orig_step
     # 2. observation read from the wrong slice
